@@ -24,7 +24,7 @@ PY
 )
 echo "demo compile: $CMD"
 run_demo() {
-  R=$W NFL=$W ROOT=$W WT=$W bash -c "$CMD" 2>$O/demo_build.log || { echo "demo build failed"; tail -3 $O/demo_build.log; return 99; }
+  ( cd $O; R=$W NFL=$W ROOT=$W WT=$W S=$W W=$W bash -c "$CMD" 2>$O/demo_build.log ) || { echo "demo build failed"; tail -3 $O/demo_build.log; return 99; }
   timeout 900 $O/demo_bin > $O/demo_out.txt 2>&1; rc=$?; tail -2 $O/demo_out.txt; return $rc
 }
 cd $W || exit 1
